@@ -1,6 +1,6 @@
 """C06 - operators are exact over the whole value range, negatives and limits included."""
 import struct
-import vlib
+import progcheck, vlib
 from lattice import int_lattice, rand_int, rand_float_bits, FLOAT_SPECIALS, MAX_INT, MIN_INT
 
 COQ_TARGETS = ["props/C06.vo", "corr/CorrOps.vo"]
@@ -74,6 +74,23 @@ def program(form, op, a, b):
         return "functie f(x) { x %s %s } f(%s)" % (op, B, A)
     if form == "FFusedLeft":
         return "functie f(x) { %s %s x } f(%s)" % (A, op, B)
+    if form in ("FComputed", "FComputedLeft"):
+        # operands that are RESULTS (fresh objects made at run time, texts edited in place), not literals: a value
+        # compares by what it is, however it came about
+        return "functie id_(v) { v }; %s %s a %s b" % (computed("a", a), computed("b", b) if form == "FComputed" else "stel b = %s;" % B, op)
+
+
+def computed(name, d):
+    k, _ = d
+    src = operand_src(d)
+    if k == "i":
+        return "stel %s = id_(%s) + 0;" % (name, src)
+    if k == "F":
+        return "stel %s_ = [%s * 1.0]; stel %s = -(-(%s_[0]));" % (name, src, name, name)
+    if k == "S":
+        # built by two in-place edits that change the length: "qq", first q replaced by the text, last q deleted
+        return "stel %s = \"qq\"; %s[0] = %s; %s[-1] = \"\";" % (name, name, src, name)
+    return "stel %s = id_(%s);" % (name, src)
 
 
 def parse_result(o):
@@ -93,6 +110,8 @@ def parse_result(o):
 
 
 def run(ctx, log):
+    # the same small programs at every size around the widths the implementation encodes things in (closed-form results)
+    progcheck.run_scale(ctx, log, ['constants'])
     rng = ctx.rng
     lat = int_lattice()
     extreme = sorted(lat, key=lambda z: -abs(z))[:14] + [0, 1, -1, 2, -2, 7, -7, 3]
@@ -160,6 +179,24 @@ def run(ctx, log):
         for y in STRS:
             for sym, name in (OPS[5:11] if not ctx.quick else rng.sample(OPS[5:11], 2)):
                 cases.append(("FGeneric", sym, name, ("S", x), ("S", y)))
+    # the same comparisons on COMPUTED operands (all six, floats incl. NaN / signed zero / infinities, texts edited in place, integers)
+    cmp_ops = OPS[5:11]
+    for x, y in (rng.sample(fpairs, 60) if ctx.quick else fpairs):
+        for sym, name in cmp_ops:
+            cases.append(("FComputed", sym, name, ("F", x), ("F", y)))
+            cases.append(("FComputedLeft", sym, name, ("F", x), ("F", y)))
+    for x in FLOAT_SPECIALS:
+        for sym, name in cmp_ops:
+            cases.append(("FComputed", sym, name, ("F", x), ("F", x)))
+            cases.append(("FComputedLeft", sym, name, ("F", x), ("F", x)))
+    for x in STRS:
+        for y in STRS:
+            for sym, name in (cmp_ops if (not ctx.quick or x == y) else rng.sample(cmp_ops, 2)):
+                cases.append(("FComputed", sym, name, ("S", x), ("S", y)))
+                cases.append(("FComputedLeft", sym, name, ("S", x), ("S", y)))
+    for (a, b) in list(ext_pairs)[:40] + [(rand_int(rng), rand_int(rng)) for _ in range(20)]:
+        for sym, name in cmp_ops:
+            cases.append(("FComputed", sym, name, ("i", a), ("i", b)))
     # every combination of types, every operator
     reps = [("n", None), ("b", True), ("b", False), ("i", 3), ("i", -4), ("F", "3ff8000000000000"), ("S", "ab"), ("A", None), ("f", None)]
     for x in reps:
@@ -234,7 +271,7 @@ def run(ctx, log):
             if py != exp:
                 ctx.violate("unsupported operand types must be a type error", source=srcs[i], observed=o, expected=exp)
             continue
-        form = "FGeneric" if f == "FLocal" else f
+        form = "FGeneric" if f in ("FLocal", "FComputed", "FComputedLeft") else f
         items.append("OC %s %s %s %s %s" % (form, name, desc_coq(a), desc_coq(b), term))
         idx.append(i)
     header = "From NL.Corr Require Import CorrOps.\nOpen Scope Z_scope.\nDefinition rtab : list (float * float * float) := [%s]." % rt
